@@ -264,6 +264,23 @@ def on_exit_marker(pid, code):
         pass
 
 
+def slow_exit_marker(pid, code):
+    """an exit callback that takes a while: writes 'begin', works 0.3 s, writes 'end'"""
+    path = os.environ.get('VERIF_EXIT_LOG', '/dev/null')
+    try:
+        fd = os.open(path, os.O_WRONLY | os.O_APPEND | os.O_CREAT)
+        os.write(fd, b'%d begin\n' % pid)
+        time.sleep(0.3)
+        os.write(fd, b'%d end\n' % pid)
+        os.close(fd)
+    except OSError:
+        pass
+
+
+def slow_process_up(w):
+    time.sleep(0.3)
+
+
 def announce_and_block(path, secs=60, value=None):
     """tell the driver which process runs this task, then stay in task code"""
     with open(path, 'w') as fh:
